@@ -391,6 +391,31 @@ def c12e(ctx, enc, dec, tag):
         ctx.fail(o, "(program)", "field correspondence could be established for only %d types (%s)" % (n, tag))
 
 
+def c12i(ctx, prog):
+    """A ring buffer's storage is two slices whose split point depends on the deque's history.  An encoder (or decoder)
+    that looks at the storage through as_slices() must consume BOTH halves; writing `as_slices().0` alone is a valid,
+    self-consistent stream that silently drops the wrapped part."""
+    import json as _json
+    o = ctx.ob("C12.i", "layout-observers/both-halves-consumed", "K3", "whenever an Encode/Decode body calls VecDeque::as_slices / as_mut_slices, both halves of the result are used")
+    n = 0
+    for b in prog.all_bodies(CRATES):
+        if b.rec.get("trait") not in (wire.ENC_TRAIT, wire.DEC_TRAIT) and not (b.parent and prog.bodies.get(b.parent) is not None and prog.bodies[b.parent].rec.get("trait") in (wire.ENC_TRAIT, wire.DEC_TRAIT)):
+            continue
+        n += 1
+        for s_ in b.calls_to(r"VecDeque::<T(, A)?>::as_(mut_)?slices$"):
+            ctx.touch(b)
+            l = s_.node["dest"][0]
+            text = _json.dumps([blk for i, blk in enumerate(b.blocks) if i in b.live_blocks])
+            used = {f for f in ("0", "1") if re.search(r'\[%d, \["f:%s#' % (l, f), text)}
+            # copies of the whole tuple
+            if used != {"0", "1"}:
+                ctx.fail(o, s_, "%s uses only the %s half of `as_slices()`: for a deque whose ring buffer has wrapped the other half is never written — the stream "
+                         "is well-formed and decodes to a prefix of the value" % (b.name, "first" if used == {"0"} else "second" if used == {"1"} else "no"))
+    o.sites = n
+    if n < 100:
+        ctx.fail(o, "(program)", "expected >= 100 Encode/Decode bodies, found %d" % n)
+
+
 def run(ctx):
     prog = ctx.prog
     progs = [prog]
@@ -403,6 +428,7 @@ def run(ctx):
         ctx.run_clause("C12.b", lambda c: c12b(c, enc_dec["x"][0]))
         ctx.run_clause("C12.e", lambda c: c12e(c, enc_dec["x"][0], enc_dec["x"][1], "main"))
     ctx.run_clause("C12.c", lambda c: c12c(c, prog))
+    ctx.run_clause("C12.i", lambda c: c12i(c, prog))
     # the derive macros: their fixtures live in the serializer's unit-test module (unit/tuple/named structs, enums with
     # unit/tuple/struct variants, generics, #[serialize(skip)]); analysed, never run
     def fixtures(c):
